@@ -329,4 +329,38 @@ PROPS = {
         trusted=E2E_TRUST,
         assumptions=["transport contract: a broken transport fails all pending and later reads and writes of that end"],
     ),
+    "C19": dict(
+        modules=["Drpc.Props.C19", "Drpc.Tie.C19"],
+        suites=["signal"],
+        rule="signal suite: ONE real drpcsignal.Signal (resp. drpcsignal.Chan) shared by 2-3 goroutines with 1-3 operations each "
+             "(Signal: Set(e1), Set(e2), Set(nil), Signal, Wait, Get, Err, IsSet; Chan: Close, Make(1), Get, Send, Recv, Full), every "
+             "goroutine parked in front of each operation and at every drpcdebug.Point inside setSlow / signalSlow / doSlow / "
+             "Close / Get and on the fast paths; the director releases one goroutine at a time and observes only at "
+             "stop-the-world-verified quiescence. (A) 2 goroutines x 1 operation: EVERY pair of operations, EVERY complete schedule "
+             "(depth-first over the release choices with replay from the start; the number of schedules found on the real code is "
+             "compared with the model's own exhaustive count); (B) 2 x 2 operations: every schedule of three fixed and a seeded "
+             "selection of program pairs (all pairs in the thorough tier), counts compared likewise; (C) seeded random walks over "
+             "2-3 goroutines x 1-3 operations in which goroutines are also sent into a held mutex (at most one waiter); (D) the "
+             "double-Close scenarios. Compared per schedule: where every goroutine is after every release (point name / blk / end / "
+             "pan), every return value, channel identities (nil / sentinel / c0, c1 by first appearance), which channels are closed "
+             "at the end. Non-trivial: a goroutine was preempted inside an operation (context switch away from a goroutine parked "
+             "at an internal point) or somebody was blocked at some time; distinct by hash of the request",
+        trusted=COMMON_TRUST[:0] + [
+            "Go runtime: sync.Mutex, sync/atomic (sequentially consistent), channel close/send/receive as documented; the model's "
+            "race_free theorems are what licenses reasoning about the non-atomic fields err/ch under sequential consistency",
+            "the granularity of the correspondence is the scheduling points: between two points the real code runs uninterrupted, "
+            "the model runs its intermediate atomic steps in program order (interleavings of those steps are covered by the "
+            "theorems, not by the trace validation); the positions of the points are part of the fingerprints (Tie.C19)",
+            "quiescence detection: the director's bookkeeping (parked at a point / returned) plus a stop-the-world runtime.Stack "
+            "snapshot in which every goroutine but the director is in a channel/mutex wait; director.Settle as authoritative "
+            "re-check at the end of a sample of schedules and of every schedule that ends with a blocked goroutine",
+            "Chan channel operations: the model does not choose between several parked receivers / senders (Go: FIFO); the suite "
+            "generates at most one Recv, and next to it at most one Send and no Full; Signal.Wait, Chan.setFresh/setClosed and the "
+            "package-level `closed` channel have no fingerprint (their behaviour is covered by the suite)",
+        ],
+        assumptions=["no_panic_single_closer: at most one Close call ever and no Send/Full next to a Close (double Close and send "
+                     "after Close panic exactly like Go's own channels: chan_double_close_counterexample, "
+                     "chan_send_after_close_counterexample — recorded as a contract, not as a finding)"],
+        timeout=dict(quick=300, thorough=7200),
+    ),
 }
